@@ -402,6 +402,32 @@ pub(crate) struct HoistedOperand {
     pub(crate) is_rhs: bool,
 }
 
+/// Returns `true` if evaluating `expr` can write to a binding of the current function, i.e. if it
+/// contains an assignment or an update (`++`/`--`) expression.
+fn contains_assignment(expr: &Expression) -> bool {
+    use boa_ast::{
+        expression::operator::{Assign, Update},
+        visitor::{VisitWith, Visitor},
+    };
+    use std::ops::ControlFlow;
+
+    struct AssignmentFinder;
+
+    impl<'ast> Visitor<'ast> for AssignmentFinder {
+        type BreakTy = ();
+
+        fn visit_assign(&mut self, _: &'ast Assign) -> ControlFlow<Self::BreakTy> {
+            ControlFlow::Break(())
+        }
+
+        fn visit_update(&mut self, _: &'ast Update) -> ControlFlow<Self::BreakTy> {
+            ControlFlow::Break(())
+        }
+    }
+
+    expr.visit_with(&mut AssignmentFinder).is_break()
+}
+
 #[derive(Debug, Clone, Copy)]
 #[allow(variant_size_differences)]
 enum Access<'a> {
@@ -1351,7 +1377,7 @@ impl<'ctx> ByteCompiler<'ctx> {
                 });
             }
             None => {
-                self.compile_expr_operand(binary.lhs(), |compiler, lhs| {
+                self.compile_lhs_operand(binary.lhs(), binary.rhs(), |compiler, lhs| {
                     compiler.compile_expr_operand(binary.rhs(), |compiler, rhs| {
                         label_index = compiler.next_opcode_location();
                         emit_fn(&mut compiler.bytecode, Self::DUMMY_ADDRESS, lhs, rhs);
@@ -1823,6 +1849,28 @@ impl<'ctx> ByteCompiler<'ctx> {
         let op = reg.variable();
         inner_fn(self, op);
         self.register_allocator.dealloc(reg);
+    }
+
+    /// Like [`compile_expr_operand`](Self::compile_expr_operand), for the left operand of a binary
+    /// operation whose right operand `rhs` is compiled by `inner_fn` before the left operand is read.
+    ///
+    /// A local's own register can only be handed out if compiling `rhs` cannot write that local.
+    /// Otherwise its current value is copied into a temporary first: `x + (x = 5)` must use the old `x`.
+    pub(crate) fn compile_lhs_operand(
+        &mut self,
+        lhs: &Expression,
+        rhs: &Expression,
+        inner_fn: impl FnOnce(&mut Self, RegisterOperand),
+    ) {
+        if contains_assignment(rhs) {
+            let reg = self.register_allocator.alloc();
+            self.compile_expr(lhs, &reg);
+            let op = reg.variable();
+            inner_fn(self, op);
+            self.register_allocator.dealloc(reg);
+        } else {
+            self.compile_expr_operand(lhs, inner_fn);
+        }
     }
 
     /// Compile a property access expression, prepending `this` to the property value in the stack.
